@@ -77,6 +77,8 @@ def gen_cases(tier, seed):
         yield {"kind": "range", "seed": r.randrange(1 << 30)}
     for i in range(4 if tier == "quick" else 100):
         yield {"kind": "two_kernels", "seed": r.randrange(1 << 30)}
+    for i in range(6 if tier == "quick" else 120):
+        yield {"kind": "repaired_kernel", "seed": r.randrange(1 << 30), "damage": ["bad-cell", "repeated-row", "bad-cell-late"][i % 3]}
 
 
 def run_case(case, ctx):
@@ -178,6 +180,17 @@ def _run_fit(case, ctx):
                                    **dict({kk: v for kk, v in gen.DEFAULT_UNITS.items() if not kk.startswith("pressure")}, **gen.temp_kw(77.355)))
         res = _call(pk.psd_dft, iso, kernel=path if case["kernel"] == "user" else "DFT-N2-77K-carbon-slit", bspline_order=order)
     else:
+        # "any pressure grid": the raw entry point takes the points in whatever order they were recorded (paired)
+        how = ["ascending", "descending", "shuffled", "ascending"][case["seed"] % 4]
+        if how == "descending":
+            p, n = p[::-1].copy(), n[::-1].copy()
+        elif how == "shuffled":
+            idx = list(range(len(p)))
+            r.shuffle(idx)
+            if idx[0] < idx[-1]:
+                idx = idx[::-1]  # (starts higher than it ends)
+            p, n = p[idx], n[idx]
+        ctx.count("raw_grid_order", how)
         res = _call(pk.psd_dft_kernel_fit, p, n, path, order)
     ctx.case(["fit", dg])
     from pygaps.utilities.exceptions import CalculationError
@@ -346,6 +359,54 @@ def _run_two_kernels(case, ctx):
             ctx.violation("psd_dft_kernel_fit/kernel-cache-visible", "the pore widths used are not those of the requested kernel file (a previously loaded kernel was reused)", requested=path, got=_CAP[-1]["widths"][:4] if _CAP else None,
                           expected=k["widths"][:4])
             return
+
+
+def _run_repaired_kernel(case, ctx):
+    """A user kernel file that could not be loaded the first time (a damaged cell, a repeated pressure row) is repaired in place
+    and used again in the same session: the second use sees the repaired file, all of it."""
+    from pygaps.characterisation import psd_kernel as pk
+    r = gen.rng(case["seed"], "rep")
+    path = user_kernel(r, "r%d" % case["seed"])
+    with open(path) as fh:
+        good = fh.read()
+    lines = good.split("\n")
+    ncol = len(lines[0].split(",")) - 1
+    if case["damage"] == "repeated-row":
+        bad = lines[:20] + [lines[19]] + lines[20:]
+    else:
+        col = max(1, ncol // 2) if case["damage"] == "bad-cell" else ncol  # (the loader has built some of the interpolators when it trips)
+        cells = lines[30].split(",")
+        cells[col] = "1.2.3e"  # (not a number, and not one of the spellings pandas reads as a missing value)
+        bad = lines[:30] + [",".join(cells)] + lines[31:]
+    with open(path, "w") as fh:
+        fh.write("\n".join(bad))
+    p0 = numpy.exp(numpy.linspace(math.log(1e-5), math.log(0.9), 30))
+    first = _call(pk.psd_dft_kernel_fit, p0, p0 * 3.0, path, 0)
+    ctx.count("repaired_kernel", "%s/first-use-%s" % (case["damage"], "refused" if first[0] != "ok" else "accepted"))
+    with open(path, "w") as fh:
+        fh.write(good)
+    k = load_kernel(path)
+    w = _weights(r, len(k["widths"]), "dense")
+    p = _grid(r, k, n=50)
+    n = _synth(k, w, p)
+    del _CAP[:]
+    res = _call(pk.psd_dft_kernel_fit, p, n, path, 0)
+    ctx.case(["repaired-kernel", case["damage"], case["seed"]])
+    if first[0] == "ok":
+        # the damaged file was accepted (then the library has cached whatever it made of it): not the history this case is about
+        ctx.trivial += 1
+        return
+    if res[0] != "ok":
+        ctx.violation("psd_dft_kernel_fit/repaired-kernel/raises", "after a failed first load, the repaired kernel file cannot be used in the same session", exc=res[1], damage=case["damage"])
+        return
+    if not _CAP or len(_CAP[-1]["widths"]) != len(k["widths"]) or not numpy.allclose(_CAP[-1]["widths"], k["widths"]):
+        ctx.violation("psd_dft_kernel_fit/repaired-kernel/partial-kernel-used", "after a failed first load, the second use does not see all pore widths of the (repaired) kernel file", got=len(_CAP[-1]["widths"]) if _CAP else None,
+                      expected=len(k["widths"]), damage=case["damage"])
+        return
+    fitted = numpy.asarray(res[1][3], dtype=float)
+    scale = float(numpy.max(numpy.abs(n)))
+    if float(numpy.max(numpy.abs(fitted - n))) > 1e-9 * scale:
+        ctx.violation("psd_dft_kernel_fit/repaired-kernel/fit-does-not-reproduce-input", "after a failed first load, an exact combination of the repaired kernel is not reproduced", max_dev=float(numpy.max(numpy.abs(fitted - n))), scale=scale)
 
 
 def finalize(ctx):
